@@ -23,6 +23,7 @@ def sh(cmd, cwd=None, timeout=3600):
 def main():
     args = [a for a in sys.argv[1:] if not a.startswith('--')]
     only_missed = '--only-missed' in sys.argv
+    demo_only = '--demo-only' in sys.argv
     dirs = sorted(d for d in os.listdir(SEEDED) if os.path.isdir(os.path.join(SEEDED, d)))
     if args:
         dirs = [d for d in dirs if any(a in d for a in args)]
@@ -41,6 +42,21 @@ def main():
             missed.append(d + ' (does not apply)')
             continue
         sh('git -C /repo apply %s' % patch)
+        # the change must be live: its demonstration fails with the patch applied (a hunk that
+        # drifted into an identical neighbouring block would leave the demonstration passing)
+        import shutil
+        shutil.copy(os.path.join(SEEDED, d, 'demo.py'), '/repo/_demo_seeded.py')
+        rc_demo, _ = sh('/venv/bin/python _demo_seeded.py', cwd='/repo', timeout=600)
+        os.remove('/repo/_demo_seeded.py')
+        if rc_demo == 0 and meta.get('status') != 'neutralised':
+            sh('git -C /repo checkout -- .')
+            print('%s: patch applies but its demonstration PASSES (misapplied hunk or neutralised)' % d, flush=True)
+            missed.append(d + ' (demonstration passes)')
+            continue
+        if demo_only:
+            sh('git -C /repo checkout -- .')
+            print('%s: live (demonstration fails with the patch)' % d, flush=True)
+            continue
         detected = {}
         try:
             checks = [meta['property']] + [c for c in meta.get('checks_run', {}) if c != meta['property']]
